@@ -212,9 +212,6 @@ def per_model_loop_rule(F, rep, methods):
             n += 1
             key = "loop:%s" % name.split("::")[-1]
             exits = [x for x, par in find_hir(lp, lambda x: x.get("k") in ("Ret",) or (x.get("k") == "Match" and x.get("src") == "TryDesugar"))]
-            # `break` / `continue` of the for-loop desugaring itself do not count; an explicit break does
-            brk = [x for x, par in find_hir(lp, lambda x: x.get("k") == "Break" and not x.get("desugar")) if not any(p.get("src") == "ForLoopDesugar" and p.get("k") == "Match" and x in [a.get("b") for a in p.get("arms", [])] for p in par)]
-            closure_exits = []
             if exits:
                 rep.violation(rid, key, "the loop in %s that handles one model per iteration is left by %s at line %s when a model fails: the remaining models are not processed"
                               % (name.split("::")[-1], "`?`" if exits[0].get("k") == "Match" else "return", exits[0].get("l")), "%s:%s" % (FILE, exits[0].get("l")))
